@@ -869,7 +869,12 @@ class StateNode(Generic[TContext, TEvent]):
 
     def _parse_actions(self, config: Optional[Any]) -> List[ActionDefinition]:
         """Parses an action or list of actions from config."""
-        if not config:
+        # 🛡️ "Nothing declared" is None or an EMPTY string / list / mapping.
+        #    Testing plain truthiness also swallowed `0` and `false`, which
+        #    are wrong-typed values and must be rejected like `7` and `true`.
+        if config is None or (
+            isinstance(config, (str, list, tuple, dict)) and not config
+        ):
             return []
         return [ActionDefinition(a) for a in self._ensure_list(config)]
 
@@ -918,7 +923,12 @@ class StateNode(Generic[TContext, TEvent]):
     ) -> Optional[TransitionDefinition]:
         """Parses the 'onDone' transition for a compound/parallel state."""
         on_done_config = config.get("onDone")
-        if not on_done_config:
+        # 🛡️ Same rule as for actions: only None or an empty string / list /
+        #    mapping means "not declared"; `0` / `false` are wrong-typed.
+        if on_done_config is None or (
+            isinstance(on_done_config, (str, list, tuple, dict))
+            and not on_done_config
+        ):
             return None
 
         normalized_list = self._normalize_transitions(on_done_config)
